@@ -24,6 +24,15 @@ fn once(case: &Value, run: &Run) -> Acc {
             crate::checks::purity::entry_points_pub(&mut acc, case["query"].as_str().unwrap_or("$"), &case["doc"], &am);
             acc
         }
+        "law" => crate::checks::compare::replay_law(case, run),
+        "timeout" => replay_timeout(case),
+        "compose" => {
+            let mut acc = Acc::new();
+            let q = case["query"].as_str().unwrap_or("$");
+            println!("query: {} -> {:?}", q, crate::imp::parse(q).map(|r| r.map(|j| format!("{:?}", j.segments))));
+            acc.viol(format!("compositional parsing of {} must be inspected by hand (see the message in the replay file)", q), case.clone());
+            acc
+        }
         "ext" => crate::checks::ext::replay(case, run),
         "query-plain" => crate::checks::common::replay_plain(case, run),
         k => {
@@ -69,4 +78,35 @@ pub fn replay(path: &str) -> i32 {
         println!("no violation: the recorded case now satisfies {}", prop);
         0
     }
+}
+
+
+/// a case that exceeded the wall-clock horizon: re-run it in a subprocess-free way under a fresh watchdog
+fn replay_timeout(case: &Value) -> Acc {
+    let mut acc = Acc::new();
+    let c = &case["case"];
+    let q = c["query"].as_str().unwrap_or("$").to_string();
+    let doc = c["doc"].clone();
+    println!("query: {}  document: {}", q, doc);
+    let (tx, rx) = std::sync::mpsc::channel();
+    let q2 = q.clone();
+    std::thread::spawn(move || {
+        let am = crate::imp::AddrMap::new(&doc);
+        let r = match crate::imp::parse(&q2) {
+            Ok(Ok(jq)) => format!("{:?}", crate::imp::run_parsed(&jq, &doc, &am).short()),
+            other => format!("{:?}", other.map(|r| r.is_ok())),
+        };
+        let _ = tx.send(r);
+    });
+    match rx.recv_timeout(std::time::Duration::from_secs(20)) {
+        Ok(r) => println!("returned within the horizon: {}", r),
+        Err(_) => {
+            acc.viol(format!("{} does not return within 20 s", q), case.clone());
+            // the worker thread cannot be stopped: report and leave
+            println!("{} does not return within 20 s", q);
+            println!("VIOLATION property={} replay=(this file)", case["property"].as_str().unwrap_or("C08"));
+            std::process::exit(1);
+        }
+    }
+    acc
 }
